@@ -74,7 +74,7 @@ func renderState(m *server.Manager, names []string) string {
 			fmt.Fprintf(&sb, "%s=v%d", n, ns.GetMaxResultSize()-markerBase)
 		}
 		sb.WriteString("[")
-		for v := 0; v <= 2; v++ {
+		for _, v := range versions {
 			if m.CheckUser(userOf(n, v)) {
 				fmt.Fprintf(&sb, "u%d", v)
 			}
@@ -111,6 +111,8 @@ func adminOp(m *server.Manager, e string) string {
 	case "p":
 		v, _ := strconv.Atoi(f[2])
 		pan = ev.Catch(func() { err = m.ReloadNamespacePrepare(nsConfig(f[1], v)) })
+	case "pf":
+		pan = ev.Catch(func() { err = m.ReloadNamespacePrepare(badConfig(f[1])) })
 	case "c":
 		pan = ev.Catch(func() { err = m.ReloadNamespaceCommit(f[1]) })
 	case "d":
@@ -235,6 +237,7 @@ func concScenarios(r *ev.Run) []*cscenario {
 		{Name: "update-vs-delete", Names: ab, Obs: ab, Admins: [][]string{{"p A 1", "c A"}, {"d B"}}, Reader: []string{"ns B", "ns A"}, Bound: 2},
 		{Name: "two-deletes", Names: ab, Obs: ab, Admins: [][]string{{"d A"}, {"d B"}}, Reader: []string{"ns A", "ns B"}, Bound: 2},
 		{Name: "one-update-reader", Names: ab, Obs: ab, Admins: [][]string{{"p A 1", "c A", "p A 2", "c A"}}, Reader: []string{"ns A", "user A 1", "ns A", "user A 2"}, Bound: 2},
+		{Name: "failed-prepare-vs-update", Names: ab, Obs: ab, Admins: [][]string{{"p A 1", "c A"}, {"pf B", "pf A"}}, Reader: []string{"ns A", "user A 1"}, Bound: 1},
 		{Name: "create-two-new", Names: []string{"A"}, Obs: []string{"A", "B", "C"}, Admins: [][]string{{"p B 1", "c B"}, {"p C 1", "c C"}}, Bound: 2},
 	}
 	if r.Quick() {
@@ -245,6 +248,7 @@ func concScenarios(r *ev.Run) []*cscenario {
 		for _, sc := range s {
 			sc.Bound = 3
 		}
+		s[5].Bound = 2 // failed-prepare-vs-update
 		s = append(s,
 			&cscenario{Name: "three-ns-updates", Names: allNames, Obs: allNames, Admins: [][]string{{"p A 1", "c A", "d C"}, {"p B 2", "c B"}}, Reader: []string{"ns A", "ns C", "user B 2"}, Bound: 2},
 			&cscenario{Name: "delete-then-recreate", Names: ab, Obs: ab, Admins: [][]string{{"d A", "p A 2", "c A"}, {"d B"}}, Reader: []string{"ns A", "ns B", "ns A"}, Bound: 2},
